@@ -3,8 +3,6 @@ package c02
 
 import (
 	"fmt"
-	"os"
-	"path/filepath"
 	"strings"
 
 	"verifharness/internal/ga"
@@ -12,109 +10,19 @@ import (
 )
 
 func Run(cfg hx.Config) (*hx.Meta, error) {
-	meta := &hx.Meta{Property: "C02", Seed: cfg.Seed, Tier: cfg.Tier}
-	r := hx.NewRand(cfg.Seed)
-	cat := ga.NewCatalogue()
-	depth, nrand, pool := 1, 40, 12
-	if cfg.Tier == "thorough" {
-		depth, nrand, pool = 2, 300, 20
-	}
-	types := cat.Shapes(r, depth, nrand)
-	if cfg.Tier != "thorough" {
-		// quick: all depth<=1 shapes, the random ones, and a seeded slice of the depth-2 shapes
-		d2 := cat.Shapes(r, 2, 0)
-		hx.Shuffle(r, d2)
-		types = ga.Dedup(append(types, d2[:60]...))
-	}
-	calls := []ga.Call{ga.CallEq, ga.CallEqC}
-	probes := ga.Probe(cfg.Goderive, filepath.Join(cfg.Work, "probe"), types, calls, true)
-	var ok []*ga.Type
-	var okIdx []int
-	var sup strings.Builder
-	for i, t := range types {
-		pr := probes[i]
-		meta.GoderiveRuns++
-		meta.Count("gen/" + pr.GenClass)
-		// observation for the support predicate of the model
-		fmt.Fprintf(&sup, "(sup-eq %s %s)\n", t.Sexp(), pr.GenClass)
-		switch {
-		case pr.GenClass == "ok" && pr.VetOK:
-			ok = append(ok, t)
-			okIdx = append(okIdx, i)
-		case pr.GenClass == "ok" && !pr.VetOK:
-			meta.Count("gen/ok-but-does-not-typecheck")
-			meta.AddDirect(hx.Direct{Class: "c02-generated-does-not-typecheck", What: "deriveEqual for " + t.Go(0) + " is generated but does not type-check",
-				Files: map[string]string{"derived.gen.go": pr.Derived}, Cmd: "goderive . && go vet", Output: pr.VetOut})
-		case pr.GenClass == "panic" || pr.GenClass == "timeout":
-			// a crash of the generator is C09's subject; here the type simply is not usable
-			meta.Notes = append(meta.Notes, "goderive "+pr.GenClass+" on deriveEqual for "+t.Go(0)+" (see C09)")
-		}
-	}
-	supf := filepath.Join(cfg.Out, "c02-support.obs")
-	if err := os.WriteFile(supf, []byte(sup.String()), 0o644); err != nil {
-		return nil, err
-	}
-	meta.ObsFiles = append(meta.ObsFiles, supf)
-
-	// batches of supported types: one goderive run + one build each
-	bts, bis := ga.Batches(ok, okIdx, 60)
-	nb := len(bts)
-	obsFiles := make([]string, nb)
-	errs := make([]error, nb)
-	rs := make([]*hx.Rand, nb)
-	for b := range rs {
-		rs[b] = r.Fork(uint64(b))
-	}
-	hx.Parallel(nb, 8, func(b int) {
-		p := &ga.Pkg{Dir: filepath.Join(cfg.Work, fmt.Sprintf("batch%02d", b)), Types: bts[b], Idx: bis[b], Calls: calls}
-		if errs[b] = p.Write(); errs[b] != nil {
-			return
-		}
-		g := p.Generate(cfg.Goderive)
-		if g.Exit != 0 {
-			meta.AddDirect(hx.Direct{Class: "c02-batch-generate-failed", What: "goderive fails on a batch of types that it accepts one by one", Cmd: "goderive .", Output: hx.Truncate(g.Out, 3000)})
-			return
-		}
-		if bd := p.BuildDriver(); bd.Exit != 0 {
-			meta.AddDirect(hx.Direct{Class: "c02-batch-build-failed", What: "batch of individually type-correct packages does not build", Cmd: "go build -tags drv", Output: hx.Truncate(bd.Out, 3000)})
-			return
-		}
-		gen := ga.NewGen(rs[b], pool)
-		var cases strings.Builder
-		for i, t := range p.Types {
-			vals := gen.Pool(t, map[int]*ga.Type{}, 3)
+	vr := &ga.ValueRun{
+		Prop: "C02", Calls: []ga.Call{ga.CallEq, ga.CallEqC}, SupObs: "sup-eq", PoolQuick: 12, PoolThorough: 20,
+		Cases: func(idx int, t *ga.Type, vals []*ga.Val, r *hx.Rand, out *strings.Builder) {
 			for xi, x := range vals {
 				for yi, y := range vals {
 					op := "eq"
 					if (xi+yi)%5 == 0 {
-						op = "eqc"
+						op = "eqc" // the one-argument curried form
 					}
-					fmt.Fprintf(&cases, "%s %d %s %s\n", op, p.Idx[i], x.Sexp(), y.Sexp())
+					fmt.Fprintf(out, "%s %d %s %s\n", op, idx, x.Sexp(), y.Sexp())
 				}
 			}
-			meta.CountSafe(fmt.Sprintf("pool-size/%02d", min(len(vals), 20)))
-		}
-		res := p.RunDriver(cases.String())
-		if res.Exit != 0 {
-			meta.AddDirect(hx.Direct{Class: "c02-driver-failed", What: "driver crashed", Cmd: "./drv cases.txt", Output: hx.Truncate(res.Out, 3000)})
-			return
-		}
-		obsFiles[b] = filepath.Join(cfg.Out, fmt.Sprintf("c02-batch%02d.obs", b))
-		errs[b] = os.WriteFile(obsFiles[b], []byte(res.Stdout), 0o644)
-		for _, l := range strings.SplitN(res.Stdout, "\n", 50)[:3] {
-			meta.Sample(hx.Truncate(l, 300))
-		}
-	})
-	for b := range obsFiles {
-		if errs[b] != nil {
-			return nil, errs[b]
-		}
-		if obsFiles[b] != "" {
-			meta.ObsFiles = append(meta.ObsFiles, obsFiles[b])
-			meta.GoderiveRuns++
-			meta.Packages++
-		}
+		},
 	}
-	meta.Count(fmt.Sprintf("types=%d supported=%d", len(types), len(ok)))
-	return meta, nil
+	return vr.Run(cfg)
 }
